@@ -96,6 +96,8 @@ def plan(tier, seed):
     k = 60 if tier == "quick" else 1000
     for s in range(0, k, 10):
         units.append({"kind": "intarr", "start": s, "stop": min(k, s + 10), "w": 10.0})
+    if tier == "thorough":
+        units.append({"kind": "suite", "w": 10 ** 7})   # the repository's own tests with the contracts installed (DESIGN 1.5)
     return units
 
 
@@ -272,6 +274,14 @@ def setup(ctx):
     from autoarray.structures.triangles.coordinate_array import CoordinateArrayTriangles
     from autoarray.structures.triangles import shape as shape_mod
     ctx.AT, ctx.CT, ctx.sh = ArrayTriangles, CoordinateArrayTriangles, shape_mod
+    install_contracts(ctx)
+
+
+def install_contracts(ctx):
+    """Also used by harness/suite_plugin.py (the repository's own tests drive the contracts in the thorough tier)."""
+    from autoarray.structures.triangles.array import ArrayTriangles
+    from autoarray.structures.triangles.coordinate_array import CoordinateArrayTriangles
+    from autoarray.structures.triangles import shape as shape_mod
     for cls in (ArrayTriangles, CoordinateArrayTriangles):
         contracts.attach(ctx, cls, "up_sample", post_up)
         contracts.attach(ctx, cls, "neighborhood", post_nb)
